@@ -290,9 +290,8 @@ class UnionMarshaller(AbstractMarshaller[UnionT], tp.Generic[UnionT]):
             return val
 
         for routine in self.ordered_routines:
-            with contextlib.suppress(
-                ValueError, TypeError, SyntaxError, AttributeError
-            ):
+            # Whichever error a member used to reject the value, try the next member.
+            with contextlib.suppress(Exception):
                 unmarshalled = routine(val)
                 return unmarshalled
 
